@@ -12,7 +12,7 @@ _T1 = ["vbi_roundtrip", "vbi_range", "vbi_canonical_length", "vbi_decode_consume
        "u16_u32_reencode", "binary_roundtrip", "string_roundtrip", "utf8_validity_spec", "topic_name_validity_spec",
        "topic_filter_validity_spec", "v5_topic_validity_spec", "utf8_validity_orig_violated",
        "topic_filter_validity_orig_violated", "topic_name_validity_orig_violated"]
-_T2 = ["props_roundtrip", "props_roundtrip_will", "props_reencode_stable", "props_unpack_total_and_bounded"]
+_T2 = ["prop_table_facts", "props_roundtrip", "props_roundtrip_will", "props_reencode_stable", "props_unpack_total_and_bounded"]
 _T3 = ["decode_no_overread", "encode_decode", "decode_wf", "reencode_stable", "size_exact", "msg_size_exact'",
        "msg_size_exact_orig_violated", "alloc_proportional_violated", "alloc_proportional_partial"]
 THEOREMS = ["GmqttVerif.Codec." + t for t in _T1 + _T2 + _T3]
@@ -362,6 +362,8 @@ BAD_SEQS = [b"\x00", b"\xc0\x80", b"\xc1\xbf", b"\xe0\x80\x80", b"\xe0\x9f\xbf",
 
 def gen_text(rng, chaos=0.0, maxlen=8):
     n = rng.choice([0, 1, 1, 2, 3, 5, maxlen])
+    if rng.random() < 0.02:              # long field: property / remaining lengths need two or three length bytes
+        n = rng.choice([130, 300, 5500])
     out = bytearray()
     for _ in range(n):
         r = rng.random()
@@ -482,7 +484,7 @@ def gen_packet(rng, ver, typ, chaos=0.0):
         body = ebin(topic)
         if qos > 0: body += pid()
         if v5p: body += enc_props(gen_props(rng, "PUBLISH", chaos, want=[0x23] if alias else None))
-        body += bytes(rng.randrange(256) for _ in range(rng.choice([0, 0, 1, 3, 20, 130])))
+        body += bytes(rng.randrange(256) for _ in range(rng.choice([0, 0, 1, 3, 20, 130, 130, 17000 if rng.random() < 0.1 else 200])))
         return frame(3, (dup << 3) | (qos << 1) | retain, body)
     if typ in ("PUBACK", "PUBREC", "PUBREL", "PUBCOMP"):
         body = pid()
@@ -983,10 +985,11 @@ class CodecStream(core.Stream):
         return core.run_parallel([exe] + self.drive_args, cases, timeout=self.timeout)
 
 def streams(tier):
-    n = 2500 if tier == "quick" else 120000
+    n = 3500 if tier == "quick" else 60000
     na = 12 if tier == "quick" else 200
-    return [(CodecStream("codec", "codec", gen, predicate, nontrivial, keep_prefix=0), n),
-            (CodecStream("codec-alloc", "codec", gen_alloc, predicate, None, keep_prefix=0), na)]
+    to = 180 if tier == "quick" else 1500      # per chunk of cases; generous so that a loaded machine never splits chunks
+    return [(CodecStream("codec", "codec", gen, predicate, nontrivial, keep_prefix=0, timeout=to), n),
+            (CodecStream("codec-alloc", "codec", gen_alloc, predicate, None, keep_prefix=0, timeout=to), na)]
 
 def run(r):
     return core.standard_run(r, __import__(__name__, fromlist=["x"]))
